@@ -127,6 +127,16 @@ def integral_clause(m):
     return worst
 
 
+def integral_bad(m, ant):
+    """the 2 % clause inside its domain (every segment at most 1/18 wavelength); (text or None, deviation or None)"""
+    if max(float(sg.seg_len) for g in m.geo for sg in g.segments) > ant['lam'] / 18 * 1.001:
+        return None, None
+    w = integral_clause(m)
+    if w > 0.02:
+        return 'point-moment sum deviates %.3g of the pattern maximum from the exact integral' % w, w
+    return None, w
+
+
 def replay(rp):
     if 'ant' not in rp:
         print('replay: nothing to execute:', rp.get('kind'))
@@ -135,7 +145,7 @@ def replay(rp):
     m = antgen.build(rp['ant'])
     antgen.pick_sources(rng, m)
     m.compute()
-    bad = property_on_impl(m)
+    bad = property_on_impl(m) or integral_bad(m, rp['ant'])[0]
     print('replay ->', bad or 'property holds')
     return 1 if bad else 0
 
@@ -167,13 +177,12 @@ def run(ck):
         bad = property_on_impl(m)
         if bad:
             viol.append(dict(kind='far', ant=ant, src_seed=ss, observed=bad))
-        if ant['seg'] <= ant['lam'] / 18 * 1.001:
-            w = integral_clause(m)
+        ib, w = integral_bad(m, ant)
+        if w is not None:
             worst_int = max(worst_int, w)
             ck.count('integral_clause_cases')
-            if w > 0.02:
-                viol.append(dict(kind='far', ant=ant, src_seed=ss,
-                                 observed='point-moment sum deviates %.3g of the pattern maximum from the exact integral' % w))
+        if ib:
+            viol.append(dict(kind='far', ant=ant, src_seed=ss, observed=ib))
     ck.stats['disagreements'] = len(dis)
     ck.stats['worst_exact_integral_deviation'] = worst_int
     ck.cov['rule'] = ('antennas from the shared generator (10 families, free space and ideal ground), 1-3 complex sources, 5 zenith x 6 '
